@@ -227,6 +227,10 @@ fn case<S: Shape>(r: &mut Rng, acc: &mut Acc, index: u64, verbose: bool) {
             if fr.is_empty() {
                 continue;
             }
+            if !spec.exact_at(t) {
+                acc.count("skipped_inexact_instant_of_non_dyadic_cycle", 1);
+                continue;
+            }
             if m.phase == Phase::Active && t >= 1.0e8 {
                 // an "after the end" probe time of another merged component: far outside the exact
                 // regime of this (still running) component
